@@ -119,3 +119,15 @@ claim("C09", "mc-tensor", "model_checking",
       "explicit-state exploration of chains of layout operations on real tensors/views, reference NestedArray model stepped in lock-step, state de-duplication on (pointer, shape, strides)",
       "Start tensors: every shape of rank<=3 over {0,1,2,3} as contiguous owned, strided view of a bigger buffer, and owned with spare capacity (with_capacity+append), plus 11 larger layouts that reach copy.rs blocked paths; chains of depth 2 (thorough 3) over try_slice/slice/slice_copy with every item list over per-axis alphabets of indices and stepped/negative/clamped ranges, slice_axis, index_axis, split_at, permuted (all + invalid), transposed, move_axis, insert/remove_axis, merge_axes, squeezed, broadcast to every shape of rank<=3(4), reshaped/to_shape/into_shape to every factorisation, clip_dim, append, to_contiguous, to_tensor, map, copy_into_slice. Subject success implies model success with equal shape and elements; model-valid operations of the non-fallible API must succeed.",
       "The reference model's reading of slice_copy is NumPy semantics (clamped endpoints), of slice/try_slice strict bounds, as documented in rten-tensor; element type i32 only.")
+claim("C38", "mc-bytes", "fault_enumeration",
+      "exhaustive byte-string enumeration (all strings of length <=3, alphabet strings of length <=5) plus exhaustive single-field fault enumeration over the ONNX schema, instrumented reader for the linear-time budget, crash/hang-isolating workers",
+      "Every byte string of length <=3 (16.8M) and every string of length 4..5 over 9 structural bytes; every LEN/varint field at every schema path of depth <=3 with extreme lengths (0,1,remaining+-1,2^31,2^32,2^63-1,2^63,2^64-k) and odd varints; every truncation/wire-type substitution of seed models; nesting depth up to 32768. Through parse_buf, parse_file, is_onnx_model, Model::load and ModelProto::decode over an instrumented BufRead+Seek that counts operations (budget linear in the input, no backward seek). A reference protobuf walker demands an error whenever a LEN field reached through well-formed fields is longer than the rest of the input. Workers are forked with RLIMIT_AS and a CPU watchdog so aborts, stack overflows and hangs are observed per case.",
+      "Multi-point corruptions of long inputs are outside the box; wall-clock is only a watchdog, the linear-time clause is decided by operation counts.")
+claim("C21", "mc-bytes", "fault_enumeration",
+      "exhaustive enumeration of location strings x (offset, length) pairs x loaders in a sandbox directory with a reference path/bounds predicate",
+      "Location strings: every sequence of <=3 components from a 29-element component alphabet (plain names, odd extensions, '.', '..', empty, unicode, NUL, drive-like, names of files outside the directory and in a sub-directory) with optional leading and trailing separators; (offset, length) over a 16-value alphabet up to 2^64-1 squared; loaders load_file, load_mmap and load+external_data. Reference: exactly one plain component with a recognised extension and offset+length (u128) within the file; Ok implies the constant's bytes equal that range of that file inside the model directory; everything else must be a load error; no panic/abort/hang (forked workers, RLIMIT_AS).",
+      "POSIX path semantics only; symbolic links are outside the alphabet; spellings such as w.DATA/w.database are left undecided (if loaded, the bytes must still come from the plain file inside the directory).")
+claim("C05", "mc-bytes", "fault_enumeration",
+      "exhaustive single-point fault enumeration of seed ONNX and .rten models (bytes, truncations, varint/offset/dims fields x extremes) in crash/hang-isolating workers, with read-back of every constant",
+      "Seeds: ONNX models for each initializer data path (raw_data, typed data, f16, external data, Constant nodes, subgraphs) and .rten files (V1/V2, inline and tensor-data section, the in-repo model-load-file-test.rten). Faults: every byte position x value alphabet, every truncation, every protobuf LEN/varint field x extreme values, every header offset/length and every u16/u32 of the flatbuffer x extremes, every initializer dims tuple over {0,1,2,2^31,2^32,2^62,2^63-1} x data lengths. Through Model::load, load_file and load_mmap. Oracle: returns within the watchdog, no panic/abort/signal; on Ok every top-level constant's shape product (u128) equals its element count and a run that requests it returns exactly those elements.",
+      "No UB detector: undefined behaviour is observed only as a crash or a wrong constant; constants of subgraphs are checked through runs only.")
